@@ -229,8 +229,8 @@ func run(c *core.Ctx) int {
 // ---------------------------------------------------------------------------
 
 type pending struct {
-	base    string // signature
-	group   string // family:engine
+	base    string          // signature
+	group   string          // family:engine
 	points  map[string]bool // cause@moment points that violate
 	detail  string
 	witness any
@@ -288,6 +288,7 @@ func (d *decider) emit() {
 		sort.Strings(points)
 		return
 	}
+	summary := map[string]any{}
 	for _, b := range d.order {
 		p := d.pend[b]
 		good := map[string]bool{}
@@ -302,7 +303,11 @@ func (d *decider) emit() {
 			len(p.points), bs, bp, len(good), gs, gp)
 		w := map[string]any{"first": p.witness, "violating_shapes": bs, "violating_points": bp, "passing_shapes": gs, "passing_points": gp}
 		d.c.Violate(p.base, detail, w)
+		summary[p.base] = map[string]any{"violating_cases": len(p.points), "violating_shapes": bs, "violating_cause@moment": bp,
+			"passing_cases_same_family_and_engine": len(good)}
 	}
+	// also for signatures that are listed as known findings (which Violate only counts)
+	d.c.Extra("violations_by_signature", summary)
 }
 
 func witnessOf(tc tcase, res any) map[string]any {
@@ -315,6 +320,22 @@ func witnessOf(tc tcase, res any) map[string]any {
 		w["modules"] = mods
 	}
 	return w
+}
+
+func momentBucket(k int) string {
+	switch {
+	case k < 0:
+		return "before"
+	case k <= 1:
+		return fmt.Sprint(k)
+	case k <= 7:
+		return "2-7"
+	case k <= 31:
+		return "8-31"
+	case k <= 100:
+		return "32-100"
+	}
+	return "101-1000"
 }
 
 func afterBucket(n int64) string {
@@ -422,7 +443,7 @@ func (d *decider) tickedResult(tc tcase, r core.CaseResult) {
 	d.judged(group, pt)
 	c.Count("cases_"+eng, 1)
 	c.Count("cases_cause_"+cause, 1)
-	c.Count("cases_moment_"+momentS, 1)
+	c.Count("cases_moment_"+momentBucket(tc.Moment), 1)
 	c.Count("cases_class_"+t.Class, 1)
 	c.Count("ticks_total", t.Ticks)
 	c.Distinct("shapes", t.Label)
